@@ -94,6 +94,9 @@ T_Convert(e) == /\ e.ev = "Convert" /\ tph \in {"written", "parsed", "dead"} /\ 
                        rep == IF tcase.kind = "m2" THEN RepNames(e.from, e.to) ELSE ContentNames
                        why == IF e.res # "ok" THEN {<<"convert-res", e.res>>}
                               ELSE (IF samev THEN Item("convert-same", DiffT(e.secs, Names)) ELSE Item("convert", DiffX(e.secs, rep)))
+                                   \* the converted model carries the requested version: end of the (multi-step) path of M2Layout
+                                   \cup Flag("convert-version", tcase.kind = "m2" /\ e.rver # VerNum(FinalVersion(e.from, e.to)))
+                                   \cup Flag("convert-parse-version", tcase.kind = "m2" /\ e.pres = "ok" /\ e.pver # VerNum(e.to))
                                    \cup (IF e.wres # "ok" THEN (IF IsErr(e.wres) /\ ~samev THEN {} ELSE {<<"convert-write-res", e.wres>>})
                                        ELSE (IF samev THEN Flag("convert-same-bytes", e.wtok # twr.tok \/ e.wlen # twr.len) ELSE {})
                                             \cup (IF e.pres # "ok" THEN {<<"convert-parse-res", e.pres>>}
